@@ -26,7 +26,18 @@ def spec_function(module, name):
 
 
 class RefHooks(EditHooks):
-    """EditHooks + the pandas spellings of `first element of a selection`"""
+    """EditHooks + the pandas spellings of `first element of a selection`; helpers of the module under test are read as
+    part of their caller, except the functions the reference text itself names (its vocabulary)"""
+    mod = None
+    vocabulary = frozenset()
+
+    def inline(self, fname):
+        r = super().inline(fname)
+        if r is not None:
+            return r
+        if self.mod and fname.isidentifier() and fname not in self.vocabulary and (self.mod, fname) in self.model.funcs:
+            return self.model.funcs[(self.mod, fname)], False
+        return None
 
     def call(self, sm, node, fname, args, kwargs, st):
         f = node.func
@@ -107,10 +118,15 @@ def show_effect(x):
     return " ".join(show_value(y)[:80] if not isinstance(y, str) else y for y in x)
 
 
-def compare(model, roles_, code_fn, ref_fn, rep, rule, construct, where, what, free=()):
+def compare(model, roles_, code_fn, ref_fn, rep, rule, construct, where, what, free=(), mod=None):
     """-> True when every feasible pair of paths agrees; violations are reported with the first differing effect"""
+    nested = {x.name for x in ast.walk(ref_fn) if isinstance(x, ast.FunctionDef)}
+    vocab = frozenset(c.func.id for c in ast.walk(ref_fn) if isinstance(c, ast.Call) and isinstance(c.func, ast.Name)) - nested
+
     def summarise(fn, pnames):
-        sm = GuardedSummarizer(RefHooks(model, roles_, ()), Ctx())
+        hooks = RefHooks(model, roles_, ())
+        hooks.mod, hooks.vocabulary = mod, vocab
+        sm = GuardedSummarizer(hooks, Ctx())
         a = fn.args
         params = [x.arg for x in a.posonlyargs + a.args + a.kwonlyargs]
         if len(params) != len(pnames):
